@@ -461,9 +461,32 @@ def _native_norm(seed):
     return dict(graft=gname, shape=shape, maxdim=maxdim), None
 
 
+def _native_zero_block(seed):
+    """a block whose gradient is identically zero has grafted norm 0: after warm-up its update must be exactly zero (never NaN/inf)"""
+    import torch
+    from distributed_shampoo.distributed_shampoo import DistributedShampoo
+    from distributed_shampoo import shampoo_types as st
+    torch.manual_seed(seed)
+    for gc in (st.SGDGraftingConfig(), st.AdaGradGraftingConfig(epsilon=1e-8), st.AdamGraftingConfig(beta2=0.9, epsilon=1e-8)):
+        p = torch.nn.Parameter(torch.randn(4, 2, dtype=torch.float64))
+        opt = DistributedShampoo([p], lr=0.1, betas=(0.0, 1.0), epsilon=1e-6, max_preconditioner_dim=2, precondition_frequency=1, start_preconditioning_step=1,
+                                 grafting_config=gc, preconditioner_dtype=torch.float64, use_merge_dims=False)
+        for t in range(3):
+            g = torch.randn(4, 2, dtype=torch.float64)
+            g[2:4] = 0.0
+            p.grad = g
+            before = p.detach().clone()
+            opt.step()
+            if not torch.isfinite(p).all():
+                return f"{type(gc).__name__}: step {t + 1}: a block with zero gradient made the parameters non-finite"
+            if not torch.equal(p.detach()[2:4], before[2:4]):
+                return f"{type(gc).__name__}: step {t + 1}: block with zero gradient (grafted norm 0) was moved by {float((p.detach()[2:4] - before[2:4]).abs().max()):.3e}"
+    return None
+
+
 def bounded(tier, seed):
     n = 6 if tier == "quick" else 60
-    evals, viol, samples, distinct = 0, [], [], set()
+    evals, viol, samples, distinct = 1, [], [], set()
     for target in TARGETS:
         for k in range(n):
             cfgd, bad = _native_traj(target, seed * 1000 + k)
@@ -474,6 +497,10 @@ def bounded(tier, seed):
             if bad:
                 viol.append(dict(ob=f"bounded/trajectory=torch.optim.{target}[seed={seed * 1000 + k}]", func="DistributedShampoo.step", input=cfgd,
                                  text="warm-up trajectory differs from torch.optim", detail=bad, replay=dict(kind="traj", target=target, seed=seed * 1000 + k)))
+    bad = _native_zero_block(seed)
+    if bad:
+        viol.append(dict(ob="bounded/norm-transfer-zero-gradient-block", func="DistributedShampoo._precondition_and_grafting", input=dict(seed=seed), text=bad, detail=bad,
+                         replay=dict(kind="zero_block", seed=seed)))
     for k in range(n):
         cfgd, bad = _native_norm(seed * 1000 + k)
         evals += 1
@@ -504,7 +531,13 @@ def replay_file(doc):
             if bad:
                 return True, f"{cfgd}: {bad}"
         return False, "12 seeded native trajectories agree with torch.optim"
+    if rp.get("kind") == "zero_block":
+        bad = _native_zero_block(rp["seed"])
+        return bool(bad), str(bad)
     if rp.get("kind") in ("norm", "wiring"):
+        bad = _native_zero_block(0)
+        if bad:
+            return True, bad
         for k in range(12):
             cfgd, bad = _native_norm(7000 + k)
             if bad:
